@@ -14,12 +14,15 @@ RULE = ("valid archives (independent writers of C07/C08) mutated: random flips i
         "extract return (report or error) within the time limit and without MemoryError under a 3 GiB address-space limit; every file or directory extract creates or opens for "
         "writing resolves inside the destination (its sideN sub-directories for disks); nothing outside the destination changes. The extracted model is compared too (exit class, effects, "
         "report) except where a name is not 7-bit (text decoding is not modelled for tapes). signature = (kind, mutation classes); non-trivial = at least one structural mutation")
-ASSUMPTIONS = ["wall-clock and memory behaviour are observed under limits, not proved: the theorems bound loop iterations, buffer sizes and path shapes",
+ASSUMPTIONS = ["a catalogue NAME.EXT spelling exactly '.' or '..' makes open() fail on the directory (IsADirectoryError): the model's open() knows no directories, so these cases are judged by the oracle on the real tool only (skipped_unmodelled for the correspondence)",
+               "wall-clock and memory behaviour are observed under limits, not proved: the theorems bound loop iterations, buffer sizes and path shapes",
                "the destination directory itself holds no symbolic links"]
 
 TIME_LIMIT = 20
 
 EVIL_NAMES = ["../../PW", "..", ".", "a/b", "/ABS", "x\x00y", "..\\..", "....//", "A/../B", "\x00", "/", "//", "é", "\xff\xfe", " / ", "CON", "a\nb"]
+EVIL_PAIR_NAMES = [".", "", "..", "A/..", "/", "../..", "..//", "X/"]
+EVIL_PAIR_EXTS = ["/AB", "./A", "/..", "/", "..", ".", "/.", "A/B", "//A"]
 
 
 def mutate_disk(rng, is_fd, raw, muts):
@@ -68,10 +71,15 @@ def mutate_disk(rng, is_fd, raw, muts):
             if b[o] == 0xFF:
                 b[o:o + 16] = b"X       BIN" + bytes([2, 0, rng.choice(used) if used else 1, 0, 1])
             nm = rng.choice(EVIL_NAMES).encode("latin1", "replace")
-            if rng.random() < 0.5:
+            r = rng.random()
+            if r < 0.4:
                 b[o:o + 8] = nm.ljust(8)[:8]
-            else:
+            elif r < 0.7:
                 b[o + 8:o + 11] = nm.ljust(3)[:3]
+            else:
+                # the name and the extension fields cooperating: NAME + '.' + EXT spelling a path out of the destination
+                b[o:o + 8] = rng.choice(EVIL_PAIR_NAMES).encode("latin1").ljust(8)[:8]
+                b[o + 8:o + 11] = rng.choice(EVIL_PAIR_EXTS).encode("latin1").ljust(3)[:3]
         elif m == "flipfat":
             for _ in range(rng.randint(1, 6)):
                 b[fat + rng.randrange(256)] ^= 1 << rng.randrange(8)
@@ -104,7 +112,15 @@ def gen_cases(rng, tier):
             t = c08.gen_case(rng)
             t["tail"] = min(t["tail"], 100)
             cases.append({"kind": "tape", "tape": t, "mseed": rng.randint(0, 1 << 30), "verbose": rng.random() < 0.3})
-    return cases, {"random": n}
+    # the name and extension fields cooperating (NAME + '.' + EXT spelling a path): every pair on a tape, a sample of them on disks
+    pairs = [(a, b) for a in EVIL_PAIR_NAMES for b in EVIL_PAIR_EXTS]
+    for a, b in pairs:
+        t = {"files": [{"name": a, "ext": b, "kind": 1, "mode": 0, "chunks": [{"pat": "41", "len": 5}]}], "wseed": 1, "tail": 0, "tailfill": 0}
+        cases.append({"kind": "tape", "tape": t, "mseed": 0, "verbose": False, "pair": [a, b]})
+    dp = pairs if tier == "thorough" else rng.sample(pairs, 16)
+    for a, b in dp:
+        cases.append({"kind": "disk", "spec": gen_third_party(rng, nsides=rng.choice([1, 4]), is_fd=rng.random() < 0.6, max_files=2), "mseed": 0, "verbose": False, "pair": [a, b]})
+    return cases, {"random": n, "name/extension pairs on tapes": len(pairs), "name/extension pairs on disks": len(dp)}
 
 
 def mutate_tape(rng, raw, muts):
@@ -116,10 +132,15 @@ def mutate_tape(rng, raw, muts):
         if m == "name" and idx:
             i = rng.choice(idx) + 7
             nm = rng.choice(EVIL_NAMES).encode("latin1", "replace")
-            if rng.random() < 0.6:
+            r = rng.random()
+            if r < 0.4:
                 b[i:i + 8] = nm.ljust(8)[:8]
-            else:
+            elif r < 0.65:
                 b[i + 8:i + 11] = nm.ljust(3)[:3]
+            else:
+                b[i:i + 8] = rng.choice(EVIL_PAIR_NAMES).encode("latin1").ljust(8)[:8]
+                b[i + 8:i + 11] = rng.choice(EVIL_PAIR_EXTS).encode("latin1").ljust(3)[:3]
+            # the leader block's checksum is left wrong half of the time (the tools do not verify it)
         elif m == "type" and len(b) > 10:
             j = [i for i in range(len(b) - 6) if b[i:i + 5] == b"\x01\x01\x01\x3c\x5a"]
             if j:
@@ -162,7 +183,17 @@ def run_case(case, ctx):
             sp = case["spec"]
             is_fd = sp["is_fd"]
             raw, _ = write_third_party(sp)
-            raw = mutate_disk(rng, is_fd, raw, muts)
+            if "pair" in case:
+                # one live entry carrying the pair, on side 0 (slot 0), pointing at block 1
+                muts.add("pair")
+                b = bytearray(raw)
+                o = (20 * 16 + 2) * (256 if is_fd else 512)
+                b[o:o + 32] = case["pair"][0].encode("latin1").ljust(8)[:8] + case["pair"][1].encode("latin1").ljust(3)[:3] + bytes([1, 0, 1, 0, 5]) + bytes(16)
+                fat = (20 * 16 + 1) * (256 if is_fd else 512)
+                b[fat + 2] = 0xC1
+                raw = bytes(b)
+            else:
+                raw = mutate_disk(rng, is_fd, raw, muts)
             arch = "d/img" + ext_of(is_fd)
             cd.put(arch, raw)
             before = cd.snapshot()
@@ -171,12 +202,18 @@ def run_case(case, ctx):
             after = cd.snapshot()
             ml = dmodel_outcome(ctx.model.call("disk_list", is_fd, v, raw))
             mx = dmodel_outcome(ctx.model.call("disk_extract", is_fd, v, [], text_points(arch), raw))
-            dis = compare_action(rl, ml, cd, None, "list") or compare_action(rx, mx, cd, after, "extract")
+            if rx.get("exc") == "IsADirectoryError" and any(os.path.basename(e[0]) in (".", "..") for e in mx["effects"]):
+                skipped = True
+            else:
+                dis = compare_action(rl, ml, cd, None, "list") or compare_action(rx, mx, cd, after, "extract")
             dest = os.path.realpath(os.path.join(cd.cwd, "d"))
             allowed = lambda p: any(inside(p, os.path.join(dest, f"side{i}")) for i in range(4))
         else:
             raw, _ = c08.write_tape(case["tape"])
-            raw = mutate_tape(rng, raw, muts)
+            if "pair" in case:
+                muts.add("pair")
+            else:
+                raw = mutate_tape(rng, raw, muts)
             arch = "d/t.k7"
             cd.put(arch, raw)
             before = cd.snapshot()
@@ -187,6 +224,8 @@ def run_case(case, ctx):
             mx = model_outcome(ctx.model.call("tar_extract", v, [], text_points(arch), raw))
             if 5 in (ml["crash"], mx["crash"]):
                 skipped = True  # a name that is not 7-bit: text decoding is not modelled
+            elif rx.get("exc") == "IsADirectoryError" and any(os.path.basename(e[0]) in (".", "..") for e in mx["effects"]):
+                skipped = True  # NAME.EXT spelling '.' or '..': the model's open() knows no directories; the kernel refuses, the tool stops with an error
             else:
                 for nm, r, m in (("list", rl, ml), ("extract", rx, mx)):
                     if status_class(r.get("status")) != status_class(m["status"]):
@@ -211,6 +250,8 @@ def run_case(case, ctx):
             for ev in rx.get("effects", []):
                 if ev[0] in ("open_w", "os.mkdir", "os.remove", "os.rename", "os.rmdir", "os.unlink", "os.truncate", "os.symlink", "os.link", "os.chmod"):
                     p = os.path.join(cd.cwd, ev[1])
+                    if ev[0] == "open_w" and os.path.isdir(p):
+                        continue  # opening a directory for writing is refused by the kernel (IsADirectoryError): an error, nothing created or modified
                     if not allowed(p):
                         bad = {"extract touched a path outside the destination": [ev[0], ev[1]]}
                         break
@@ -231,7 +272,7 @@ def run_case(case, ctx):
 
 
 def summarise(case):
-    return {"kind": case["kind"], "mseed": case["mseed"], "verbose": case["verbose"]}
+    return {"kind": case["kind"], "mseed": case["mseed"], "verbose": case["verbose"], "pair": case.get("pair")}
 
 
 def violation_class(case, detail):
